@@ -68,8 +68,12 @@ Fixpoint set_nth (fs : files) (n : nat) (v : option bytes) : files :=
   end.
 (* file numbers are small in every run (one per rollover) *)
 Definition set_file (fs : files) (n : N) (d : bytes) : files := set_nth fs (N.to_nat n) (Some d).
+(* a directory is kept without trailing missing entries *)
+Fixpoint strip_rev (fs : files) : files :=
+  match fs with None :: t => strip_rev t | _ => fs end.
+Definition strip_none (fs : files) : files := rev (strip_rev (rev fs)).
 Definition del_file (fs : files) (n : N) : files :=
-  match get_file fs n with Some _ => set_nth fs (N.to_nat n) None | None => fs end.
+  match get_file fs n with Some _ => strip_none (set_nth fs (N.to_nat n) None) | None => fs end.
 
 (* os.File.WriteAt (a gap is filled with zeros), Truncate (extends with zeros) *)
 Definition write_at (d : bytes) (off : N) (data : bytes) : bytes :=
